@@ -503,6 +503,10 @@ def shapes(repo):
     fo = _parse(repo, CODEGEN + "/fortran.py")
     cg = _find_class(fo, "CodeGenerator")
     got = _body_src(_find_def(cg, "emit_deinit_for_last_usage_of_vars"))
+    # the early return inside loop bodies added by the repair of C12 (176abb3) emits nothing and
+    # does not iterate: irrelevant to the order of what is emitted
+    if got and got[0] == "if self.for_loop_depth:\n    return":
+        got = got[1:]
     flags["deinit_sorted"] = _switch(
         "fortran.py emit_deinit_for_last_usage_of_vars", got,
         {False: EMIT_DEINIT("read_and_written"), True: EMIT_DEINIT("sorted(read_and_written)")})
@@ -522,6 +526,11 @@ def shapes(repo):
         raise ShapeError("fortran.py CodeGenerator.__call__: process_ast not found")
     _expect("fortran.py process_ast", _body_src(pa[0]), PROCESS_AST)
     lf = [_src(s) for s in _find_def(cg, "lower_function").body]
+    # since the repair of C12 (03cec4e) the exit label releases every local; still a sorted traversal
+    EXIT_ALL = ("for identifier, sym_kind in sorted(sym_table.items()):\n"
+                "    self.emit_variable_deinit(identifier, sym_kind)")
+    flags["exit_deinit_all"] = EXIT_ALL in lf
+    lf = [LOWER_FUNCTION_REQUIRED[2] if x == EXIT_ALL else x for x in lf]
     for need in LOWER_FUNCTION_REQUIRED:
         if lf.count(need) != 1:
             raise ShapeError("fortran.py lower_function: expected exactly one statement %r" % need)
@@ -547,7 +556,8 @@ def shapes(repo):
                 uses.append("contains")
             else:
                 raise ShapeError("fortran.py: last_used_stmt_table used other than by key: %s" % _src(par))
-    if sorted(uses) != ["assign", "contains", "getitem"]:
+    # (the `not in` test at the exit label disappeared with the repair of C12, 03cec4e)
+    if sorted(uses) not in (["assign", "contains", "getitem"], ["assign", "getitem"]):
         raise ShapeError("fortran.py: unexpected uses of last_used_stmt_table %r" % uses)
 
     # ArrayType.__init__
@@ -593,6 +603,8 @@ def generate(repo):
     out.append("Definition selfdep_sorted : bool := %s." % coq_bool(flags["selfdep_sorted"]))
     out.append("(* dagrt/codegen/fortran.py CodeGenerator.emit_deinit_for_last_usage_of_vars *)")
     out.append("Definition deinit_sorted : bool := %s." % coq_bool(flags["deinit_sorted"]))
+    out.append("(* lower_function: the exit label releases every local (repair of C12) *)")
+    out.append("Definition exit_deinit_all : bool := %s." % coq_bool(flags["exit_deinit_all"]))
     out.append("(* dagrt/codegen/python.py CodeGenerator.__call__ / _emit_constructor *)")
     out.append("Definition py_phases_sorted : bool := %s." % coq_bool(flags["py_phases_sorted"]))
     out.append("Definition py_table_sorted : bool := %s." % coq_bool(flags["py_table_sorted"]))
